@@ -39,7 +39,8 @@ UNPROVED = [
     'silk_only_pipeline_total (full, from bytes): missing is the structural lemma that for every byte string the parser accepts as a SILK-only '
     'mono packet the event list of SilkSyms.decodePacket holds, per Opus frame, exactly nFramesPerPacket normally decoded (indices, pulses) '
     'pairs with frame_length pulses each (framesOfEvs o silkCalls), and the lifting over opusFrames / runPackets. PROVED '
-    '(silk_only_pipeline_total_partial, fresh_decoder_satisfies_invariant, pipeline_frames_are_frame_ok): from the decoded symbols on, '
+    '(silk_only_pipeline_total_partial, opus_frame_total, fresh_decoder_satisfies_invariant, pipeline_frames_are_frame_ok): from the decoded '
+    'symbols on, for one silk_Decode call, any list of them and one whole Opus frame of the class, '
     'every stage is total, returns frame_count * frame_duration * Fs_API int16 samples and preserves the combined invariant, for any number '
     'of frames; a fresh decoder satisfies the invariant; the frames the symbol layer delivers satisfy FrameOk']
 
